@@ -16,8 +16,13 @@ Lemma link_cum_add T (o : Ops T) (wj : T) : Gen.Resample.cum_add o wj = wj.
 Proof. reflexivity. Qed.
 Lemma link_inits : Gen.Resample.j_init = 0 /\ Gen.Resample.cum_init_index = 0 /\ Gen.Resample.j_incr = 1.
 Proof. repeat split. Qed.
-(** the inner loop carries the bound [j < len(weights) - 1] (repair of the IndexError) *)
-Lemma link_loop_bounded : Gen.Resample.loop_bounded = true.
+(** the inner loop carries a bound (repair of the IndexError), and the bound is the last non-zero weight *)
+Lemma link_loop_bounded : Gen.Resample.loop_bounded = true /\ Gen.Resample.loop_bound_is_last_nonzero = true.
+Proof. split; reflexivity. Qed.
+(** the teeth are clipped to the largest value of their cell: np.minimum(positions, nextafter((i + 1.0) / size, 0)) *)
+Lemma link_cell_end T (o : Ops T) size i : Gen.Resample.cell_end o size i = cell_end o size i.
+Proof. reflexivity. Qed.
+Lemma link_positions_clipped : Gen.Resample.positions_clipped_by_minimum = true.
 Proof. reflexivity. Qed.
 Lemma link_dispatch :
   Gen.Resample.dispatch_mult_uses_full_weights_and_n_particles = true
